@@ -2470,6 +2470,42 @@ class PyCdlib:
         if saved_exception is not None:
             raise saved_exception
 
+    def _copy_inode_data(self, ino, blocksize, outfp):
+        # type: (inode.Inode, int, BinaryIO) -> None
+        """
+        An internal method to copy the data of an Inode to a file object.  If
+        the Inode carries an El Torito Boot Info Table, the table is laid over
+        bytes 8-64 of the data, like it is when the ISO is written out.  Never
+        more bytes than the length of the file are copied, so the table may get
+        truncated.
+
+        Parameters:
+         ino - The Inode to copy the data of.
+         blocksize - The number of bytes in each transfer.
+         outfp - The file object to write data to.
+        Returns:
+         Nothing.
+        """
+        if ino.boot_info_table is not None and self._needs_reshuffle:
+            # The boot info table names extents, so they have to be current.
+            self._reshuffle_extents()
+
+        with inode.InodeOpenData(ino, self.logical_block_size) as (data_fp, data_len):
+            if ino.boot_info_table is not None:
+                header_len = min(data_len, 8)
+                outfp.write(data_fp.read(header_len))
+                data_len -= header_len
+                if data_len > 0:
+                    bi_rec = ino.boot_info_table.record()
+                    table_len = min(data_len, len(bi_rec))
+                    outfp.write(bi_rec[:table_len])
+                    data_len -= table_len
+                    if data_len > 0:
+                        data_fp.seek(len(bi_rec), os.SEEK_CUR)
+                        utils.copy_data(data_len, blocksize, data_fp, outfp)
+            else:
+                utils.copy_data(data_len, blocksize, data_fp, outfp)
+
     def _udf_get_file_from_iso_fp(self, outfp, blocksize, udf_path):
         # type: (BinaryIO, int, bytes) -> None
         """
@@ -2506,8 +2542,7 @@ class PyCdlib:
             raise pycdlibexception.PyCdlibInvalidInput('Cannot write out an entry without data')
 
         if found_file_entry.get_data_length() > 0:
-            with inode.InodeOpenData(found_file_entry.inode, self.logical_block_size) as (data_fp, data_len):
-                utils.copy_data(data_len, blocksize, data_fp, outfp)
+            self._copy_inode_data(found_file_entry.inode, blocksize, outfp)
 
     def _get_file_from_iso_fp(self, outfp, blocksize, iso_path, rr_path,
                               joliet_path):
@@ -2570,30 +2605,10 @@ class PyCdlib:
         if found_record.inode is None:
             raise pycdlibexception.PyCdlibInvalidInput('Cannot write out a file without data')
 
-        if found_record.inode.boot_info_table is not None and self._needs_reshuffle:
-            # The boot info table names extents, so they have to be current.
-            self._reshuffle_extents()
-
         while found_record.get_data_length() > 0:
-            with inode.InodeOpenData(found_record.inode, self.logical_block_size) as (data_fp, data_len):
-                # Copy the data into the output file descriptor.  If a boot info
-                # table is present, overlay the table over bytes 8-64 of the
-                # file.  Note that we never return more bytes than the length
-                # of the file, so the boot info table may get truncated.
-                if found_record.inode.boot_info_table is not None:
-                    header_len = min(data_len, 8)
-                    outfp.write(data_fp.read(header_len))
-                    data_len -= header_len
-                    if data_len > 0:
-                        bi_rec = found_record.inode.boot_info_table.record()
-                        table_len = min(data_len, len(bi_rec))
-                        outfp.write(bi_rec[:table_len])
-                        data_len -= table_len
-                        if data_len > 0:
-                            data_fp.seek(len(bi_rec), os.SEEK_CUR)
-                            utils.copy_data(data_len, blocksize, data_fp, outfp)
-                else:
-                    utils.copy_data(data_len, blocksize, data_fp, outfp)
+            # Copy the data into the output file descriptor (with the boot info
+            # table over bytes 8-64 of the file if one is present).
+            self._copy_inode_data(found_record.inode, blocksize, outfp)
 
             if found_record.data_continuation is not None:
                 found_record = found_record.data_continuation
